@@ -30,7 +30,7 @@ REQUIRED = ["contract:CVR.make_phantoms", "accounting_checked:style", "accountin
             "pool_means_with_phantoms_checked", "pool_means_with_phantoms_checked:assorter_bound_not_1",
             "audit_wide_max_cards_differs_from_stratum_bound", "phantom_mvrs_for_sampled_phantom_cards_checked",
             "phantom_mvrs_for_sampled_phantom_cards_checked:another_prefix", "contest_with_card_bound_zero", "call_on_a_list_that_already_holds_phantoms:no_style",
-            "phantom_manual_record_built_by_from_raire", "phantom_mvrs_for_manifest_lookups_checked", "phantom_mvrs_for_manifest_lookups_checked:hart", "contests_dict_keyed_by_something_other_than_the_identifier", "worstcase_data_route_checked", "manifests_listing_more_cards_than_there_are_cvrs", "phantoms_created_for_a_list_in_which_a_record_already_uses_the_prefix", "phantom_mvrs_for_sampled_phantom_cards_checked:hart_two_phantom_batches", "assorter:plurality", "assorter:supermajority", "assorter:irv"]
+            "phantom_manual_record_built_by_from_raire", "phantom_mvrs_for_manifest_lookups_checked", "phantom_mvrs_for_manifest_lookups_checked:hart", "contests_dict_keyed_by_something_other_than_the_identifier", "worstcase_data_route_checked", "phantom_mvrs_for_sampled_phantom_cards_checked:prepared_manifest", "manifests_listing_more_cards_than_there_are_cvrs", "phantoms_created_for_a_list_in_which_a_record_already_uses_the_prefix", "phantom_mvrs_for_sampled_phantom_cards_checked:hart_two_phantom_batches", "assorter:plurality", "assorter:supermajority", "assorter:irv"]
 ASSUMPTIONS = ["card bounds >= number of records listing the contest; with style the input list holds no phantoms (the "
                "function is documented for 'the reported CVRs'); without style it may",
                "phantom identifiers must be distinct from the input records' identifiers when no input identifier starts with "
@@ -327,6 +327,16 @@ def run_case(es, rec):
         rec.violation("c08.accounting", "manifest_plus_phantom_batch_does_not_add_up_to_the_card_bound",
                       {"manifest_cards": total, "bound": total + extra, "n_cvrs": n_cvrs_m, "phantoms": int(pm[2]),
                        "last_cumulative_count": int(pm[0]["cum_cards"].iloc[-1])})
+        return
+    # the CVR-driven lookup again, now against the PREPARED manifest (which lists a batch named "phantom" / 1): what makes
+    # a sampled record a phantom is its flag, not whether some manifest row happens to match its identifier
+    ok, res2 = rec.guard("c08.call:Dominion.sample_from_cvrs:prepared_manifest", Dominion.sample_from_cvrs, sim.cvr_list, pm[0], np.array(pick))
+    if not ok:
+        return
+    rec.count("phantom_mvrs_for_sampled_phantom_cards_checked:prepared_manifest")
+    if sorted(m.id for m in res2[3]) != want_ph or any((not m.phantom) or m.votes for m in res2[3]):
+        rec.violation("c08.worstcase", "sampled_phantom_cards_do_not_get_phantom_manual_records:prepared_manifest",
+                      {"got": sorted(m.id for m in res2[3])[:6], "want": want_ph[:6], "prefix": es.get("phantom_prefix")})
         return
     nums = list(range(1, total + extra + 1))
     prng2 = __import__("random").Random(total * 31 + extra)
